@@ -6,6 +6,7 @@
 import NdnVerif.C14.LemmasOrder
 import NdnVerif.C14.LemmasEnc
 import NdnVerif.C14.LemmasUri3
+import NdnVerif.C14.Table
 namespace Ndn.C14
 
 /-! ## 1. `Name.Compare` is a total order and coincides with NDN canonical order -/
@@ -153,5 +154,76 @@ theorem componentFromStr_never_panics (s : Bytes) : compFromStr s ≠ .panic := 
 -- generic component satisfies the guard and round-trips
 example : nameUriOk [⟨8, [37, 255]⟩, ⟨0x32, [1, 0]⟩, ⟨300, [47]⟩, ⟨8, []⟩] = true := by decide
 example : nameFromStr [47, 61, 97] = .err := by decide        -- "/=a" is an error, not a panic
+
+/-! ## 6. tables keyed on names (engine trie, memory store) distinguish exactly the names that are not Equal
+
+The children maps of `NameTrie` and `memoryStoreNode` are keyed by a string computed from one component
+(`compKey`: its TLV encoding, after the repair of F-14b; `compKeyUri`: its URI form `Component.String()`,
+on the pinned tree).  The tables conflate two names iff the key paths coincide. -/
+
+/-- the TLV key of a component determines the component -/
+theorem table_key_injective (a b : Component) (ha : a.typ < 2 ^ 64 ∧ a.val.length < 2 ^ 64)
+    (hb : b.typ < 2 ^ 64 ∧ b.val.length < 2 ^ 64) (h : compKey a = compKey b) : a = b := by
+  have h1 := compFromBytes_encComp a ha
+  have h2 := compFromBytes_encComp b hb
+  unfold compKey at h
+  rw [h] at h1
+  rw [h1] at h2
+  exact Option.some.inj h2
+
+/-- for every insertion history, a table keyed by the TLV key puts two names into the same node
+    iff they are equal: its classes are the equality classes -/
+theorem table_classes_eq_equality (names : List Name)
+    (h : ∀ n ∈ names, ∀ c ∈ n, c.typ < 2 ^ 64 ∧ c.val.length < 2 ^ 64) :
+    classes compKey names = eqClasses names :=
+  classesAux_rel compKey (fun c => c.typ < 2 ^ 64 ∧ c.val.length < 2 ^ 64) table_key_injective
+    names [] [] 0 trivial (by simp) h
+
+/-- `PrefixMatch` in such a trie returns the node at the depth of the longest prefix the queried name
+    shares with any inserted name, as judged by component equality -/
+theorem table_prefixMatch_depth (names : List Name) (q : Name)
+    (h : ∀ n ∈ names, ∀ c ∈ n, c.typ < 2 ^ 64 ∧ c.val.length < 2 ^ 64)
+    (hq : ∀ c ∈ q, c.typ < 2 ^ 64 ∧ c.val.length < 2 ^ 64) :
+    prefixDepth compKey names q = specPrefixDepth names q :=
+  foldl_depth_congr compKey (fun c => c.typ < 2 ^ 64 ∧ c.val.length < 2 ^ 64) table_key_injective q hq names 0 h
+
+/-- the URI key is injective on exactly the components the URI round trip covers (types 1..65535,
+    numeric-convention values in shortest form) -/
+theorem uri_key_injective_on_uriOk (a b : Component) (ha : Bytes.WF a.val ∧ compUriOk a = true)
+    (hb : Bytes.WF b.val ∧ compUriOk b = true) (h : compKeyUri a = compKeyUri b) : a = b := by
+  have h1 := compFromStr_compToStr a ha.1 ha.2
+  have h2 := compFromStr_compToStr b hb.1 hb.2
+  unfold compKeyUri at h
+  rw [h] at h1
+  rw [h1] at h2
+  exact Res.ok.inj h2
+
+theorem uri_table_classes_eq_equality_on_uriOk (names : List Name)
+    (h : ∀ n ∈ names, ∀ c ∈ n, Bytes.WF c.val ∧ compUriOk c = true) :
+    classes compKeyUri names = eqClasses names :=
+  classesAux_rel compKeyUri (fun c => Bytes.WF c.val ∧ compUriOk c = true) uri_key_injective_on_uriOk
+    names [] [] 0 trivial (by simp) h
+
+/-- ... and NOT beyond (finding F-14b on the pinned tree): the 1-byte and the 2-byte encoding of
+    segment number 1 are different components (different encodings, not Equal) with one URI form, so a
+    table keyed by `String()` answers a lookup for one name with the entry of the other -/
+theorem uri_key_conflates :
+    (⟨0x32, [0, 1]⟩ : Component) ≠ ⟨0x32, [1]⟩ ∧ compKeyUri ⟨0x32, [0, 1]⟩ = compKeyUri ⟨0x32, [1]⟩ ∧
+    classes compKeyUri [[⟨8, [97]⟩, ⟨0x32, [0, 1]⟩], [⟨8, [97]⟩, ⟨0x32, [1]⟩]] = [0, 0] ∧
+    eqClasses [[⟨8, [97]⟩, ⟨0x32, [0, 1]⟩], [⟨8, [97]⟩, ⟨0x32, [1]⟩]] = [0, 1] := by
+  have hv : decVal [0, 1] = decVal [1] := by decide
+  have hk : compKeyUri ⟨0x32, [0, 1]⟩ = compKeyUri ⟨0x32, [1]⟩ := by
+    have hc : convByType 0x32 = some (asciiBytes "seg", .dec) := by decide
+    simp only [compKeyUri, compToStr, hc, VFmt.toStr, decToStr, hv]
+  refine ⟨by decide, hk, ?_, by decide⟩
+  have hp : ([⟨8, [97]⟩, ⟨0x32, [0, 1]⟩] : Name).map compKeyUri = ([⟨8, [97]⟩, ⟨0x32, [1]⟩] : Name).map compKeyUri := by
+    simp only [List.map_cons, List.map_nil, hk]
+  simp only [classes, classesAux, KTable.find, hp, if_true]
+
+-- non-vacuity / behaviour of the TLV-keyed table on the same names, and on a generic component spelling
+-- the URI form of a typed one ("32=KEY" as a generic value vs. the keyword component KEY)
+example : classes compKey [[⟨8, [97]⟩, ⟨0x32, [0, 1]⟩], [⟨8, [97]⟩, ⟨0x32, [1]⟩], [⟨8, [97]⟩, ⟨0x32, [0, 1]⟩]] = [0, 1, 0] := by decide
+example : classes compKey [[⟨8, [51, 50, 61, 75]⟩], [⟨32, [75]⟩], [⟨8, [51, 50, 61, 75]⟩]] = [0, 1, 0] := by decide
+example : prefixDepth compKey [[⟨8, [97]⟩, ⟨8, [98]⟩], [⟨8, [97]⟩, ⟨0x32, [1]⟩, ⟨8, [99]⟩]] [⟨8, [97]⟩, ⟨0x32, [1]⟩, ⟨8, [100]⟩] = 2 := by decide
 
 end Ndn.C14
